@@ -2716,59 +2716,82 @@ REF_FCN REF_STATUS ref_export_by_extension(REF_GRID ref_grid,
 
   end_of_string = strlen(filename);
 
-  if (strcmp(&filename[end_of_string - 4], ".vtk") == 0) {
+  if (end_of_string > 4 && strcmp(&filename[end_of_string - 4], ".vtk") == 0) {
     RSS(ref_export_vtk(ref_grid, filename), "vtk export failed");
-  } else if (strcmp(&filename[end_of_string - 2], ".c") == 0) {
+  } else if (end_of_string > 2 &&
+             strcmp(&filename[end_of_string - 2], ".c") == 0) {
     RSS(ref_export_c(ref_grid, filename), "C export failed");
-  } else if (strcmp(&filename[end_of_string - 4], ".tec") == 0) {
+  } else if (end_of_string > 4 &&
+             strcmp(&filename[end_of_string - 4], ".tec") == 0) {
     RSS(ref_export_tec(ref_grid, filename), "tec export failed");
-  } else if (strcmp(&filename[end_of_string - 4], ".plt") == 0) {
+  } else if (end_of_string > 4 &&
+             strcmp(&filename[end_of_string - 4], ".plt") == 0) {
     RSS(ref_gather_by_extension(ref_grid, filename), "plt gather failed");
-  } else if (strcmp(&filename[end_of_string - 4], ".eps") == 0) {
+  } else if (end_of_string > 4 &&
+             strcmp(&filename[end_of_string - 4], ".eps") == 0) {
     RSS(ref_export_eps(ref_grid, filename), "eps export failed");
-  } else if (strcmp(&filename[end_of_string - 4], ".pdf") == 0) {
+  } else if (end_of_string > 4 &&
+             strcmp(&filename[end_of_string - 4], ".pdf") == 0) {
     RSS(ref_export_pdf(ref_grid, filename), "pdf export failed");
-  } else if (strcmp(&filename[end_of_string - 4], ".su2") == 0) {
+  } else if (end_of_string > 4 &&
+             strcmp(&filename[end_of_string - 4], ".su2") == 0) {
     RSS(ref_export_su2(ref_grid, filename), "su2 export failed");
-  } else if (strcmp(&filename[end_of_string - 10], ".lb8.ugrid") == 0) {
+  } else if (end_of_string > 10 &&
+             strcmp(&filename[end_of_string - 10], ".lb8.ugrid") == 0) {
     RSS(ref_export_bin_ugrid(ref_grid, filename, REF_FALSE, REF_FALSE),
         "lb8.ugrid export failed");
-  } else if (strcmp(&filename[end_of_string - 9], ".b8.ugrid") == 0) {
+  } else if (end_of_string > 9 &&
+             strcmp(&filename[end_of_string - 9], ".b8.ugrid") == 0) {
     RSS(ref_export_bin_ugrid(ref_grid, filename, REF_TRUE, REF_FALSE),
         "b8.ugrid export failed");
-  } else if (strcmp(&filename[end_of_string - 11], ".lb8l.ugrid") == 0) {
+  } else if (end_of_string > 11 &&
+             strcmp(&filename[end_of_string - 11], ".lb8l.ugrid") == 0) {
     RSS(ref_export_bin_ugrid(ref_grid, filename, REF_FALSE, REF_TRUE),
         "lb8l.ugrid export failed");
-  } else if (strcmp(&filename[end_of_string - 10], ".b8l.ugrid") == 0) {
+  } else if (end_of_string > 10 &&
+             strcmp(&filename[end_of_string - 10], ".b8l.ugrid") == 0) {
     RSS(ref_export_bin_ugrid(ref_grid, filename, REF_TRUE, REF_TRUE),
         "b8l.ugrid export failed");
-  } else if (strcmp(&filename[end_of_string - 12], ".lb8.ugrid64") == 0) {
+  } else if (end_of_string > 12 &&
+             strcmp(&filename[end_of_string - 12], ".lb8.ugrid64") == 0) {
     RSS(ref_export_bin_ugrid(ref_grid, filename, REF_FALSE, REF_TRUE),
         "lb8.ugrid64 export failed");
-  } else if (strcmp(&filename[end_of_string - 11], ".b8.ugrid64") == 0) {
+  } else if (end_of_string > 11 &&
+             strcmp(&filename[end_of_string - 11], ".b8.ugrid64") == 0) {
     RSS(ref_export_bin_ugrid(ref_grid, filename, REF_TRUE, REF_TRUE),
         "b8.ugrid64 export failed");
-  } else if (strcmp(&filename[end_of_string - 6], ".ugrid") == 0) {
+  } else if (end_of_string > 6 &&
+             strcmp(&filename[end_of_string - 6], ".ugrid") == 0) {
     RSS(ref_export_ugrid(ref_grid, filename), "ugrid export failed");
-  } else if (strcmp(&filename[end_of_string - 5], ".grid") == 0) {
+  } else if (end_of_string > 5 &&
+             strcmp(&filename[end_of_string - 5], ".grid") == 0) {
     RSS(ref_export_i_like_cfd_grid(ref_grid, filename), "grid export failed");
-  } else if (strcmp(&filename[end_of_string - 5], ".poly") == 0) {
+  } else if (end_of_string > 5 &&
+             strcmp(&filename[end_of_string - 5], ".poly") == 0) {
     RSS(ref_export_poly(ref_grid, filename), "poly export failed");
-  } else if (strcmp(&filename[end_of_string - 6], ".smesh") == 0) {
+  } else if (end_of_string > 6 &&
+             strcmp(&filename[end_of_string - 6], ".smesh") == 0) {
     RSS(ref_export_smesh(ref_grid, filename), "smesh export failed");
-  } else if (strcmp(&filename[end_of_string - 6], ".fgrid") == 0) {
+  } else if (end_of_string > 6 &&
+             strcmp(&filename[end_of_string - 6], ".fgrid") == 0) {
     RSS(ref_export_fgrid(ref_grid, filename), "fgrid export failed");
-  } else if (strcmp(&filename[end_of_string - 5], ".html") == 0) {
+  } else if (end_of_string > 5 &&
+             strcmp(&filename[end_of_string - 5], ".html") == 0) {
     RSS(ref_export_html(ref_grid, filename), "html export failed");
-  } else if (strcmp(&filename[end_of_string - 6], ".meshb") == 0) {
+  } else if (end_of_string > 6 &&
+             strcmp(&filename[end_of_string - 6], ".meshb") == 0) {
     RSS(ref_export_meshb(ref_grid, filename), "meshb export failed");
-  } else if (strcmp(&filename[end_of_string - 9], "-bamg.msh") == 0) {
+  } else if (end_of_string > 9 &&
+             strcmp(&filename[end_of_string - 9], "-bamg.msh") == 0) {
     RSS(ref_export_bamg_msh(ref_grid, filename), "bamg msh export failed");
-  } else if (strcmp(&filename[end_of_string - 4], ".msh") == 0) {
+  } else if (end_of_string > 4 &&
+             strcmp(&filename[end_of_string - 4], ".msh") == 0) {
     RSS(ref_export_msh(ref_grid, filename), "msh export failed");
-  } else if (strcmp(&filename[end_of_string - 5], ".msh2") == 0) {
+  } else if (end_of_string > 5 &&
+             strcmp(&filename[end_of_string - 5], ".msh2") == 0) {
     RSS(ref_export_msh2(ref_grid, filename), "msh2 export failed");
-  } else if (strcmp(&filename[end_of_string - 4], ".tri") == 0) {
+  } else if (end_of_string > 4 &&
+             strcmp(&filename[end_of_string - 4], ".tri") == 0) {
     RSS(ref_export_tri(ref_grid, filename), "tri export failed");
   } else {
     RSS(ref_gather_by_extension(ref_grid, filename), "export via gather");
